@@ -382,7 +382,7 @@ class ContentElement:
       if self.get_doc() is None:
         raise ValueError("Not associated with a document")
         
-      if not self.get_doc().has_region(region.get_id()):
+      if self.get_doc().get_region(region.get_id()) is not region:
         raise ValueError("Region is unknown")
 
     self._region = region
@@ -390,7 +390,13 @@ class ContentElement:
   def get_region(self) -> typing.Optional[Region]:
     '''Returns the region associated with the element, or None if the element is
     not associated with any region.'''
-    return self._region
+    region = self._region
+
+    if region is not None and (self._doc is None or self._doc.get_region(region.get_id()) is not region):
+      # the region has since been removed from the document or replaced
+      return None
+
+    return region
 
   # timing properties
 
@@ -1082,11 +1088,10 @@ class ContentDocument(Document):
 
     body = self.get_body()
 
-    if body is not None: 
-      map(
-        lambda e: e.get_region() and e.get_region().get_id() == region_id and e.set_region(None),
-        body.dfs_iterator()
-      )
+    if body is not None:
+      for e in body.dfs_iterator():
+        if e.get_region() is region:
+          e.set_region(None)
 
     del self._regions[region_id]
 
